@@ -32,9 +32,9 @@ def _indices(rnd, n, p, tier):
 
 def gen(tier, seed):
     rnd = random.Random(seed)
-    P, M = (3, 2) if tier == "quick" else (5, 3)
+    P, M = (3, 2) if tier == "quick" else (4, 3)
     vecs = shape_vectors(P, M)
-    nrand = 40 if tier == "quick" else 800
+    nrand = 40 if tier == "quick" else 300
     vecs += [random_vector(rnd, pmax=4 if tier == "quick" else 5, big=(i % 4 == 0)) for i in range(nrand)]
     cases = []
     for v in vecs:
